@@ -57,6 +57,16 @@ var e2Contracts = map[string]extContract{
 		e.goal(f, call, "ext.pre", name+" needs len(dst) >= len(src)", dst.add(src, -1), facts)
 		// len(src) % 16 == 0: the structurally numbered atom (len(src) % 16) must be known to be 0
 		rem := f.remAtom(src, 16)
+		// a slice length is never negative, so len % 16 is unchanged by adding a multiple of 16 to it as long
+		// as the shifted dividend is non-negative as well: a guard on len(in) % 16 settles len(in[16:]) % 16
+		norm := LF{C: src.C - floorDiv(src.C, 16)*16, T: src.T}
+		if norm.C != src.C {
+			if lo, _ := f.bounds(norm, nil); lo >= 0 {
+				if ok, _ := f.Prove(f.remAtom(norm, 16).scale(-1), facts); ok {
+					rem = f.remAtom(norm, 16)
+				}
+			}
+		}
 		e.goal(f, call, "ext.pre", name+" needs len(src) % 16 == 0", rem.scale(-1), facts)
 	}},
 	"crypto/hmac.Equal":                 {"no precondition", nil},
@@ -1144,8 +1154,23 @@ func (e *E2) variant(f *FA, li *loopInfo) (bool, string) {
 			}
 			c, isC := b.Y.(*ssa.Const)
 			if !isC || c.Value == nil {
-				ok = false
-				break
+				// a variable step: it must be provably >= 1 where the back edge is taken, must not depend on
+				// the counter, and small enough not to wrap (the induction rule of E1 requires the same)
+				if dependsOnValue(b.Y, p, 0) {
+					ok = false
+					break
+				}
+				facts := f.FactsAt(li.header.Preds[i])
+				if pr, _ := f.Prove(f.LFOf(b.Y).add(konst(1), -1), facts); !pr {
+					ok = false
+					reasons = append(reasons, fmt.Sprintf("T3 on %s: cannot prove the step %s >= 1 on the back edge", p.Name(), f.Show(f.LFOf(b.Y))))
+					break
+				}
+				if _, hi := f.bounds(f.LFOf(b.Y), f.refine(facts)); hi > 1<<20 {
+					ok = false
+					break
+				}
+				continue
 			}
 			step, _ := constant.Int64Val(c.Value)
 			if step < 1 {
